@@ -1,4 +1,4 @@
-"""C12 -- closing and reopening a project loses nothing (writer/reader agreement R12.1-R12.17)."""
+"""C12 -- closing and reopening a project loses nothing (writer/reader agreement R12.1-R12.18)."""
 from __future__ import annotations
 
 import ast
@@ -26,6 +26,7 @@ EXPLANATION = (
 EXPLANATION += ' R12.15: what do() finds out and undo() needs is saved.  R12.16 (=R16.14): the newline convention is captured after a read.'
 EXPLANATION += ' R12.14: a change kind that can hold a folder saves the kind and is reloaded with it.'
 EXPLANATION += " R12.17: a table of an object whose entries are computed from another table of the object is dropped, entry by entry, wherever the source table changes."
+EXPLANATION += " R12.18: in the history loader every round of the loop over the saved entries reaches the append into the history list (no entry is dropped at load time)."
 ASSUMPTIONS = ["taint is flow-insensitive with control dependence on if-tests", "json.dumps/loads behave as documented"]
 
 
@@ -145,6 +146,7 @@ def check(ctx, res) -> None:
     _resource_kind_rule(ctx, res)
     _kind_is_saved_rule(ctx, res)
     _undo_state_is_saved_rule(ctx, res)
+    _every_saved_entry_is_loaded_rule(ctx, res)
     from .c16 import newline_capture_rule
 
     newline_capture_rule(ctx, res, "R12.16")
@@ -827,3 +829,45 @@ def _undo_state_is_saved_rule(ctx, res) -> None:
                     "initial value -- e.g. a CRLF file overwritten with text that has no line break, close, reopen, undo: the old text comes back with LF line ends",
                     function=wm.qualname)
     res.floor("R12.15", "attributes found out by do() and needed by undo()", n, 1)
+
+
+def _every_saved_entry_is_loaded_rule(ctx, res) -> None:
+    """R12.18: what was on the undo and redo lists when the project was closed is on them after it is reopened -- ALL of it: whether a
+    saved change can still be undone is found out when it is undone (and refused there), not guessed at load time from what is
+    on disk now (an earlier change on a path that a later entry of the same history moved or removed "has no existing resource"
+    and is perfectly undoable once the later ones are undone).  In the loader every iteration over the saved entries reaches the
+    append into the history list: no `continue` / condition in front of it, no filtering comprehension."""
+    idx = ctx.idx
+    hist = idx.need_class("rope.base.history.History")
+    ld = hist.methods.get("_load_history")
+    if ld is None:
+        raise AnalysisError("anchor=History._load_history missing")
+    node = common.inlined(idx, ld)
+    cfg = CFG(node)
+    n = 0
+    for lp in [x for x in cfg.nodes if x.kind == "loop" and isinstance(x.ast, ast.For)]:
+        inside = {id(y) for st in lp.ast.body for y in ast.walk(st)}
+        appends = [nd.id for nd in cfg.nodes if nd.ast is not None and id(nd.ast) in inside and nd.kind in ("stmt", "test") and any(
+            isinstance(c.func, ast.Attribute) and c.func.attr in ("append", "insert", "appendleft") and is_self_attr(c.func.value) for c in calls_in(nd.ast))]
+        if not appends:
+            continue
+        n += 1
+        body_entry = [b for b, lab in cfg.succ[lp.id] if lab == "true"]
+        # from the start of the body, can the loop header be reached again (next round) or the loop be left without passing the append?
+        skipped = bool(body_entry) and any(t in cfg.reachable(body_entry[0], avoid_nodes=appends) for t in [lp.id] + [b for b, lab in cfg.succ[lp.id] if lab != "true"]) \
+            and body_entry[0] not in appends
+        res.add("R12.18", f"History._load_history|every-saved-entry-is-loaded#{n}", not skipped, f"{ld.unit.rel}:{lp.ast.lineno}",
+                "every saved entry reaches the append into the history list" if not skipped else
+                "a round of the loop over the saved entries can end without appending the rebuilt change: entries are dropped at load time (by a test of what exists on disk NOW, "
+                "...), so the undo list after a reopen is shorter than the one that was saved -- an edit of `mod.py` followed by a rename of `mod.py` loses the edit, and the "
+                "second undo() is refused with 'Undo list is empty'", function=ld.qualname)
+    # the same written as `<list>.extend(to_change(d) for d in saved)` / a list comprehension: no `if` in it
+    for x in walk_local(node):
+        if isinstance(x, (ast.ListComp, ast.GeneratorExp)) and isinstance(x.elt, ast.Call) and len(x.generators) == 1 \
+                and any(isinstance(y, ast.Subscript) or isinstance(y, ast.Name) for y in ast.walk(x.generators[0].iter)):
+            n += 1
+            filtered = bool(x.generators[0].ifs)
+            res.add("R12.18", f"History._load_history|every-saved-entry-is-loaded#{n}", not filtered, f"{ld.unit.rel}:{x.lineno}",
+                    "every saved entry is rebuilt into the history list" if not filtered else
+                    f"`{ast.unparse(x)[:70]}` filters the saved entries while rebuilding them: the history after a reopen is shorter than the one saved", function=ld.qualname)
+    res.floor("R12.18", "loops that rebuild saved history entries", n, 1)
